@@ -61,7 +61,9 @@ static void observer(int id, int me) {
      round more often than the whole program changes the word is polling instead of blocking */
   if (id == MVP_MUTEX_LOCK_A) { if (++lock_iters[me] > lock_iter_limit && lock_iter_limit) mt_fail("myth_mutex_lock went through its retry loop %ld times in one call (the whole program changes the lock word at most %ld times): the caller polls the mutex and keeps its worker instead of blocking", lock_iters[me], lock_iter_limit); }
   else if (id == MVP_BLOCK_A) lock_iters[me] = 0;
-  if (id == MVP_STEAL) tl_armed[me] = 0;
+  /* disarmed by a steal attempt, or by the yield switching to another thread after all: the queue can look empty at
+     the hook while a thief holds a reservation on its only entry (base already advanced) and then backs off */
+  if (id == MVP_STEAL || id == MVP_YIELD_CB_A) tl_armed[me] = 0;
   else if (id == MVP_MUTEX_TRY_A && tl_armed[me])
     mt_fail("a thread waiting in myth_mutex_timedlock polled the mutex again without having tried to steal, although the run queue of its worker %d was empty: it keeps the worker to itself while runnable threads may sit in other queues", me);
 }
